@@ -1,0 +1,35 @@
+//go:build verif
+
+package transform
+
+import internal "github.com/flanglet/kanzi-go/v2/internal"
+
+// VerifDataTypes gives the verification harness (which cannot import the internal package)
+// access to the data type hints that transforms leave in the block context.
+var VerifDataTypes = map[string]internal.DataType{
+	"UNDEFINED":      internal.DT_UNDEFINED,
+	"TEXT":           internal.DT_TEXT,
+	"MULTIMEDIA":     internal.DT_MULTIMEDIA,
+	"EXE":            internal.DT_EXE,
+	"NUMERIC":        internal.DT_NUMERIC,
+	"BASE64":         internal.DT_BASE64,
+	"DNA":            internal.DT_DNA,
+	"BIN":            internal.DT_BIN,
+	"UTF8":           internal.DT_UTF8,
+	"SMALL_ALPHABET": internal.DT_SMALL_ALPHABET,
+}
+
+// VerifSetDataType stores a data type hint in a block context.
+func VerifSetDataType(ctx map[string]any, name string) {
+	ctx["dataType"] = VerifDataTypes[name]
+}
+
+// VerifBWTChunks exposes the chunk arithmetic of the inverse BWT workers.
+func VerifBWTChunks(size int) int {
+	return GetBWTChunks(size)
+}
+
+// VerifJobsPerTask exposes internal.ComputeJobsPerTask.
+func VerifJobsPerTask(jobs, tasks uint) ([]uint, error) {
+	return internal.ComputeJobsPerTask(make([]uint, tasks), jobs, tasks)
+}
